@@ -361,9 +361,17 @@ pub fn ser_entry_points(ty: &str, v: &Value, root: &str, max: usize) -> [Result<
             }
         };
         let a = quick_xml::se::to_string(&val).map(String::into_bytes).map_err(|e| format!("se: {e}"));
+        // (to_writer / to_writer_with_root into a fmt::Write are checked against the same reference)
+        let mut s1 = String::new();
+        let a1 = quick_xml::se::to_writer(&mut s1, &val).map(|_| s1.clone().into_bytes()).map_err(|e| format!("se: {e}"));
+        let same = |x: &Result<Vec<u8>, String>, y: &Result<Vec<u8>, String>| match (x, y) { (Ok(p), Ok(q)) => p == q, (Err(_), Err(_)) => true, _ => false };
+        let a = if same(&a, &a1) { a } else { Ok(b"<<to_writer differs from to_string>>".to_vec()) };
         let mut sink = crate::env::ShortSink::new(max);
         let b = quick_xml::se::to_utf8_io_writer(&mut sink, &val).map(|_| sink.out.clone()).map_err(|e| format!("se: {e}"));
         let c = quick_xml::se::to_string_with_root(root, &val).map(String::into_bytes).map_err(|e| format!("se: {e}"));
+        let mut s2 = String::new();
+        let c1 = quick_xml::se::to_writer_with_root(&mut s2, root, &val).map(|_| s2.clone().into_bytes()).map_err(|e| format!("se: {e}"));
+        let c = if same(&c, &c1) { c } else { Ok(b"<<to_writer_with_root differs from to_string_with_root>>".to_vec()) };
         let mut w = quick_xml::Writer::new(crate::env::ShortSink::new(max));
         let d = w.write_serializable(root, &val).map_err(|e| format!("se: {e}")).map(|_| w.into_inner().out);
         [a, b, c, d]
